@@ -51,6 +51,9 @@ func genC10(rng *rand.Rand, tier string) *sim.Plan {
 		// in-flight entries outlive the in-flight expiry and a full queue has to sacrifice them (first rung of the ladder)
 		"ackstrike": fmt.Sprint(rng.IntN(3) / 2),
 	}
+	// 1: seconds pass between Close and Init while messages keep arriving; 2: nothing arrives while the queue is
+	// closed, so whatever expired in flight is still there when the first Add races the replay after Init
+	p.Params["offline"] = fmt.Sprint(pick(rng, []int{0, 0, 0, 1, 2, 2}))
 	if p.Params["relbias"] == "2" {
 		p.Params["adds"] = fmt.Sprint(10 + rng.IntN(20))
 		p.Params["rounds"] = fmt.Sprint(3 + rng.IntN(6))
@@ -426,6 +429,8 @@ func runC10(tb TB, p *sim.Plan) *sim.Outcome {
 			time.Sleep(d)
 			simrt.Yield()
 		}
+		offlineGap := false
+		nearInit := false // the controller is about to re-initialise the queue (adders of the "offline" variant poll fast)
 		initStore := func(clean bool) {
 			err := store.Init(&queue.InitOptions{CleanStart: clean, Version: packets.Version5, ReadBytesLimit: st.limit, Notifier: nt})
 			logf("Init(clean=%v)=%v", clean, err)
@@ -439,6 +444,7 @@ func runC10(tb TB, p *sim.Plan) *sim.Outcome {
 			st.drained = false
 			st.probes["reinit"]++
 			closed = false
+			nearInit, offlineGap = false, false
 			generation++
 		}
 		handOut := func(elems []*queue.Elem, viaInflight bool, ids []packets.PacketID, now time.Time) {
@@ -560,7 +566,12 @@ func runC10(tb TB, p *sim.Plan) *sim.Outcome {
 			spawn(fmt.Sprintf("adder%d", a), func() {
 				for k := 0; k < nAdds && !stop; k++ {
 					simrt.Yield()
-					if store == nil {
+					if p.Params["offline"] == "2" && closed && !nearInit {
+						pause(250 * time.Millisecond)
+						k--
+						continue
+					}
+					if store == nil || p.Params["offline"] == "2" && closed {
 						pause(time.Millisecond)
 						k--
 						continue
@@ -605,6 +616,10 @@ func runC10(tb TB, p *sim.Plan) *sim.Outcome {
 		}
 		spawn("reader", func() {
 			for !stop {
+				if closed && offlineGap && !nearInit {
+					pause(250 * time.Millisecond)
+					continue
+				}
 				if store == nil || closed {
 					pause(time.Millisecond)
 					continue
@@ -647,7 +662,16 @@ func runC10(tb TB, p *sim.Plan) *sim.Outcome {
 					handOut(elems, true, nil, now)
 				}
 				// every un-acknowledged in-flight entry must have been replayed, in order
+				// (an entry that was replayed and then sacrificed by an Add that came between two ReadInflight calls,
+				// or acknowledged meanwhile, is no longer wanted: compare what is still in flight)
 				want := st.inflight()
+				still := replay[:0:0]
+				for _, y := range replay {
+					if y.where == "inflight" || y.where == "rel" {
+						still = append(still, y)
+					}
+				}
+				replay = still
 				if gen == generation && !closed {
 					if len(replay) != len(want) {
 						st.fail("replay_inflight_first", "replay-set", "after re-initialisation ReadInflight replayed %v, un-acknowledged in-flight entries are %v", pays(replay), pays(want))
@@ -694,6 +718,10 @@ func runC10(tb TB, p *sim.Plan) *sim.Outcome {
 				pause(time.Duration(1+rng.IntN(20)) * time.Millisecond)
 				if p.Params["ackstrike"] == "1" && rng.IntN(3) == 0 {
 					pause(time.Duration(1+rng.IntN(45)) * time.Second)
+				}
+				if closed && offlineGap && !nearInit {
+					pause(250 * time.Millisecond)
+					continue
 				}
 				if store == nil || closed || !st.drained {
 					// acknowledgements are processed after the in-flight entries were replayed
@@ -793,6 +821,15 @@ func runC10(tb TB, p *sim.Plan) *sim.Outcome {
 				closed = true
 				logf("Close()=%v", err)
 				pause(time.Duration(1+rng.IntN(10)) * time.Millisecond)
+				if p.Params["offline"] != "" && p.Params["offline"] != "0" {
+					// the session stays offline for seconds: in-flight entries outlive the in-flight expiry while
+					// nothing is read, and the first Add after the re-initialisation may come before the replay
+					st.probes["offline_gap"]++
+					offlineGap = true
+					pause(time.Duration(1+rng.IntN(40)) * time.Second)
+					nearInit = true
+					pause(300 * time.Millisecond)
+				}
 				if redisBackend && p.Params["restart"] == "1" && rng.IntN(2) == 0 {
 					// "broker restart": a new object on the old list. The old process is dead: no operation of
 					// the old object may still be running when the new one is created.
